@@ -2,6 +2,7 @@ import Refine.Lemmas.CavityReplace
 import Refine.Lemmas.CavityVisible
 import Refine.Lemmas.CavityGrid
 import Refine.Lemmas.Cavity2D
+import Refine.Lemmas.CavityValid
 import Refine.Lemmas.GeomReal
 import Refine.Props.C15
 
@@ -491,6 +492,40 @@ theorem replace_area {α : Type} (x : Int → V3 ℝ) (g : Grid α) (cells : Lis
 
 end area
 
+/-! ## from the validity predicate to chain-level conformity -/
+
+/-- chain-level conformity of a mesh: for every abelian group and every alternating `φ` the signed boundaries of
+    the tets cancel against each other and against the boundary tris (tris carry the orientation of the tet face
+    they close — the convention of refine's meshes, checked on the implementation's output by the stream oracle) -/
+def SignedConforming {α : Type} (m : Mesh3 α) : Prop :=
+  ∀ (G : Type) [AddCommGroup G] (φ : Int → Int → Int → G), Alt φ →
+    (m.tets.map fun t => faceSum φ (tetFaces t)).sum - (m.tris.map fun t => φ t.n0 t.n1 t.n2).sum = 0
+
+/-- the key used by the orientation clause is the unordered face of `valid3Face` -/
+theorem sort3s_key (a b c : Int) : (sort3s a b c).1 = sort3 a b c := by
+  unfold sort3s sort3
+  simp only
+  split_ifs <;> rfl
+
+/-- **Valid3 → SignedConforming**, with the combinatorial orientation clause as an explicit hypothesis:
+    `Valid3` as coded counts unordered faces (two tets, or one tet + one tri); that the two sides see the face with
+    opposite orientation follows from positive volumes only geometrically, so it enters as `valid3Orient m = true`
+    (executable: the signed multiplicity of every unordered face is zero).  `Valid3` itself is not needed for the
+    chain identity — it is what makes the orientation clause mean "exactly two, opposite". -/
+theorem valid3_signedConforming {α : Type} [Refine.Scalar α] (m : Mesh3 α) (_hv : Valid3 m = true)
+    (ho : valid3Orient m = true) : SignedConforming m := by
+  intro G _ φ hφ
+  have h := signedConforming_of_orient hφ m ho
+  have e1 : faceSum φ m.tetFaceList = (m.tets.map fun t => faceSum φ (tetFaces t)).sum := by
+    unfold Mesh3.tetFaceList faceSum
+    induction m.tets with
+    | nil => simp
+    | cons t r ih => simp only [List.flatMap_cons, List.map_append, List.sum_append, List.map_cons, List.sum_cons, ih]
+  have e2 : faceSum φ m.triFaceList = (m.tris.map fun t => φ t.n0 t.n1 t.n2).sum := by
+    unfold Mesh3.triFaceList faceSum
+    rw [List.map_map]; rfl
+  rw [← e1, ← e2]; exact h
+
 /-! ## non-vacuity: the three tets around the edge 0-1 (ring 2,3,4), cavity node 5 (an edge split) -/
 
 instance (t : Tet) : Decidable (TetNondeg t) := by unfold TetNondeg; infer_instance
@@ -576,6 +611,17 @@ example : verifySegsLoop [⟨0, 9, 1⟩, ⟨1, 9, 1⟩, ⟨9, 0, 1⟩] [⟨0, 9,
 /-- both outcomes of `insertSeg_sum`: cancellation, and a face-id mismatch -/
 example : (insertSeg exGrid2 (addTris exGrid2 (emptyCav 7) [0]).2 ⟨1, 0, 1⟩).2.validSegs.length = 2 ∧
     (insertSeg exGrid2 (addTris exGrid2 (emptyCav 7) [0]).2 ⟨1, 0, 2⟩).2.state = .boundary_constrained := by decide
+
+/-- two tets glued along the face {0,1,2} with their six boundary tris: the orientation clause holds; it fails when
+    one tri is flipped, and when the second tet is given the same orientation of the shared face -/
+example :
+    valid3Orient (⟨[], [⟨0, 1, 2, 3⟩, ⟨1, 0, 2, 4⟩],
+      [⟨1, 3, 2, 1⟩, ⟨0, 2, 3, 1⟩, ⟨0, 3, 1, 1⟩, ⟨0, 4, 2, 1⟩, ⟨1, 2, 4, 1⟩, ⟨1, 4, 0, 1⟩]⟩ : Mesh3 Int) = true ∧
+    valid3Orient (⟨[], [⟨0, 1, 2, 3⟩, ⟨1, 0, 2, 4⟩],
+      [⟨3, 1, 2, 1⟩, ⟨0, 2, 3, 1⟩, ⟨0, 3, 1, 1⟩, ⟨0, 4, 2, 1⟩, ⟨1, 2, 4, 1⟩, ⟨1, 4, 0, 1⟩]⟩ : Mesh3 Int) = false ∧
+    valid3Orient (⟨[], [⟨0, 1, 2, 3⟩, ⟨0, 1, 2, 4⟩],
+      [⟨1, 3, 2, 1⟩, ⟨0, 2, 3, 1⟩, ⟨0, 3, 1, 1⟩, ⟨1, 4, 2, 1⟩, ⟨0, 2, 4, 1⟩, ⟨0, 4, 1, 1⟩]⟩ : Mesh3 Int) = false := by
+  decide
 
 /-- both outcomes of `insertFace_sum` occur: the reversed face cancels (ok), a rotated copy is `REF_INVALID` -/
 example : (insertFace exCav ⟨4, 3, 0⟩).1 = .ok ∧ (insertFace exCav ⟨4, 3, 0⟩).2.validFaces.length = 5 ∧
